@@ -202,3 +202,440 @@ Proof.
 Qed.
 End Data.
 End Rows.
+Unset Default Proof Using.
+
+(* ------------------------------------------------------------------ *)
+(* the split files are column subsets of the original                   *)
+(* ------------------------------------------------------------------ *)
+Lemma shank_file_concat chns wrows : shank_file chns wrows = map (gather chns) (concat wrows).
+Proof. unfold shank_file. now rewrite flat_map_concat_map, concat_map. Qed.
+
+Lemma map_id_in {A} (f : A -> A) l : (forall x, In x l -> f x = x) -> map f l = l.
+Proof.
+  induction l as [|a l IH]; intros H; [reflexivity|]. cbn [map].
+  rewrite (H a (or_introl eq_refl)), IH; [reflexivity|]. intros x Hx. apply H. now right.
+Qed.
+
+Lemma conv_row_id napch cap csy r :
+  (forall x, In x r -> cap x = x /\ csy x = x) -> conv_row napch cap csy r = r.
+Proof.
+  intros H. unfold conv_row. rewrite <- (firstn_skipn (Z.to_nat napch) r) in H.
+  rewrite !map_id_in.
+  - apply firstn_skipn.
+  - intros x Hx. apply H, in_or_app. now right.
+  - intros x Hx. apply H, in_or_app. now left.
+Qed.
+
+Definition split_spec (labels : list Z) (nc nsync : Z) (rows : list row) :=
+  map (fun sh => (sh, shank_chns labels nc nsync sh,
+                  map (gather (shank_chns labels nc nsync sh)) rows)) (shanks_of labels).
+
+Lemma pub_split cap csy napch nsync nc labels ns W data :
+  1 <= ns -> 576 < W -> ns <= Z.of_nat (length data) ->
+  process_np24 cap csy napch nsync nc labels ns W data =
+  Some (split_spec labels nc nsync (map (conv_row napch cap csy) (firstn (Z.to_nat ns) data))).
+Proof.
+  intros Hns HW Hlen. unfold process_np24.
+  destruct (firstlast ns W OVERLAP) as [wins|] eqn:E.
+  2:{ change OVERLAP with 576 in E. rewrite (firstlast_closed ns W 576 Hns (Hov ns W Hns HW)) in E. discriminate. }
+  f_equal. unfold split_spec. apply map_ext. intros sh.
+  rewrite shank_file_concat. now rewrite (kept_rows_all ns W Hns HW _ data Hlen wins E).
+Qed.
+
+Lemma pub_split_lossless cap csy napch nsync nc labels ns W data :
+  1 <= ns -> 576 < W -> ns = Z.of_nat (length data) ->
+  (forall r x, In r data -> In x r -> cap x = x /\ csy x = x) ->
+  process_np24 cap csy napch nsync nc labels ns W data = Some (split_spec labels nc nsync data).
+Proof.
+  intros Hns HW Hlen Hex.
+  assert (Hl : ns <= Z.of_nat (@length row data)) by (rewrite Hlen; apply Z.le_refl).
+  rewrite (pub_split cap csy napch nsync nc labels ns W data Hns HW Hl). f_equal. f_equal.
+  rewrite Hlen, Nat2Z.id. rewrite firstn_all.
+  apply map_id_in. intros r Hr. apply conv_row_id. intros x Hx. now apply (Hex r x).
+Qed.
+
+(* ------------------------------------------------------------------ *)
+(* scatter of the gathered columns                                      *)
+(* ------------------------------------------------------------------ *)
+Lemma set_nth_length i v : forall r, length (set_nth i v r) = length r.
+Proof. induction i as [|i IH]; intros [|x r]; cbn [set_nth length]; auto. Qed.
+
+Lemma set_nth_out i v : forall r, (length r <= i)%nat -> set_nth i v r = r.
+Proof.
+  induction i as [|i IH]; intros [|x r] H; cbn [set_nth length] in *; try reflexivity; try lia.
+  f_equal. apply IH. lia.
+Qed.
+
+Lemma nth_set_nth_eq i v : forall r, (i < length r)%nat -> nth i (set_nth i v r) 0 = v.
+Proof.
+  induction i as [|i IH]; intros [|x r] H; cbn [set_nth length nth] in *; try lia; try reflexivity.
+  apply IH. lia.
+Qed.
+
+Lemma nth_set_nth_neq i j v : forall r, i <> j -> nth j (set_nth i v r) 0 = nth j r 0.
+Proof.
+  revert j. induction i as [|i IH]; intros j [|x r] H; cbn [set_nth]; try reflexivity.
+  - destruct j; [lia | reflexivity].
+  - destruct j; [reflexivity|]. cbn [nth]. apply IH. lia.
+Qed.
+
+Lemma scatter_length idx : forall vals acc, length (scatter idx vals acc) = length acc.
+Proof.
+  induction idx as [|i idx IH]; intros [|v vals] acc; cbn [scatter]; try reflexivity.
+  now rewrite IH, set_nth_length.
+Qed.
+
+Lemma scatter_gather_either r c idx : forall acc,
+  nth c (scatter idx (gather idx r) acc) 0 = nth c r 0 \/
+  nth c (scatter idx (gather idx r) acc) 0 = nth c acc 0.
+Proof.
+  induction idx as [|i idx IH]; intros acc; cbn [gather map scatter]; [now right|].
+  fold (gather idx r).
+  destruct (IH (set_nth (Z.to_nat i) (nth (Z.to_nat i) r 0) acc)) as [H|H]; [now left|].
+  rewrite H. destruct (Nat.eq_dec (Z.to_nat i) c) as [E|E].
+  - destruct (lt_dec (Z.to_nat i) (length acc)) as [L|L].
+    + left. subst c. now apply nth_set_nth_eq.
+    + right. now rewrite set_nth_out by lia.
+  - right. now apply nth_set_nth_neq.
+Qed.
+
+Lemma scatter_gather_hit r c idx : forall acc,
+  In c (map Z.to_nat idx) -> (c < length acc)%nat ->
+  nth c (scatter idx (gather idx r) acc) 0 = nth c r 0.
+Proof.
+  induction idx as [|i idx IH]; intros acc Hin Hc; cbn [map In] in Hin; [contradiction|].
+  cbn [gather map scatter]. fold (gather idx r).
+  destruct (in_dec Nat.eq_dec c (map Z.to_nat idx)) as [Hi|Hi].
+  - apply IH; [exact Hi | now rewrite set_nth_length].
+  - destruct Hin as [E|Hin]; [|contradiction].
+    destruct (scatter_gather_either r c idx (set_nth (Z.to_nat i) (nth (Z.to_nat i) r 0) acc)) as [H|H];
+      [exact H|]. rewrite H. subst c. now apply nth_set_nth_eq.
+Qed.
+
+(* what _reconstruct does to one row: shank 0 writes all its columns (sync
+   included), the others all but their last *)
+Fixpoint row_recon (cl : list (list Z)) (ish : nat) (r acc : row) : row :=
+  match cl with
+  | [] => acc
+  | chns :: rest =>
+      let idx := match ish with O => chns | S _ => removelast chns end in
+      row_recon rest (S ish) r (scatter idx (gather idx r) acc)
+  end.
+
+Definition idx_of (ish : nat) (chns : list Z) := match ish with O => chns | S _ => removelast chns end.
+
+Lemma row_recon_length r cl : forall ish acc, length (row_recon cl ish r acc) = length acc.
+Proof.
+  induction cl as [|chns cl IH]; intros ish acc; cbn [row_recon]; [reflexivity|].
+  now rewrite IH, scatter_length.
+Qed.
+
+Lemma row_recon_keep r c cl : forall ish acc,
+  nth c acc 0 = nth c r 0 -> nth c (row_recon cl ish r acc) 0 = nth c r 0.
+Proof.
+  induction cl as [|chns cl IH]; intros ish acc H; cbn [row_recon]; [exact H|].
+  apply IH. destruct (scatter_gather_either r c (idx_of ish chns) acc) as [E|E];
+    unfold idx_of in E; rewrite E; [reflexivity | exact H].
+Qed.
+
+Lemma row_recon_hit r c cl : forall ish acc, (c < length acc)%nat ->
+  (exists j chns, nth_error cl j = Some chns /\ In c (map Z.to_nat (idx_of (ish + j) chns))) ->
+  nth c (row_recon cl ish r acc) 0 = nth c r 0.
+Proof.
+  induction cl as [|chns cl IH]; intros ish acc Hc (j & ch & Hj & Hin).
+  - destruct j; discriminate.
+  - cbn [row_recon]. destruct j as [|j].
+    + injection Hj as <-. rewrite Nat.add_0_r in Hin. apply row_recon_keep.
+      apply (scatter_gather_hit r c (idx_of ish chns) acc Hin Hc).
+    + apply IH; [now rewrite scatter_length|]. exists j, ch. split; [exact Hj|].
+      now replace (S ish + j)%nat with (ish + S j)%nat by lia.
+Qed.
+
+Lemma removelast_map {A B} (f : A -> B) l : removelast (map f l) = map f (removelast l).
+Proof.
+  induction l as [|a l IH]; [reflexivity|]. cbn [map removelast].
+  destruct l as [|b l]; [reflexivity|]. cbn [map] in *. now rewrite IH.
+Qed.
+
+Lemma map2opt_map {A B C D} (F : B -> C -> D) (g : A -> B) (h : A -> C) l :
+  map2opt F (map g l) (map h l) = Some (map (fun r => F (g r) (h r)) l).
+Proof. induction l as [|a l IH]; cbn [map map2opt]; [reflexivity | now rewrite IH]. Qed.
+
+Lemma assign_cols_map (D : list row) (g : row -> row) idx :
+  assign_cols (map g D) idx (map (gather idx) D) =
+  Some (map (fun r => scatter idx (gather idx r) (g r)) D).
+Proof.
+  unfold assign_cols.
+  replace (forallb _ (map (gather idx) D)) with true.
+  - apply (map2opt_map (fun acc vals => scatter idx vals acc) g (gather idx) D).
+  - symmetry. apply forallb_forall. intros x Hx. apply in_map_iff in Hx as [r [<- _]].
+    unfold gather. rewrite map_length. apply Nat.eqb_refl.
+Qed.
+
+Definition files_of (cl : list (list Z)) (data : list row) : list (list Z * list row) :=
+  map (fun chns => (chns, map (gather chns) data)) cl.
+
+Lemma recon_shanks_rows data f l cl : forall ish (g : row -> row),
+  recon_shanks (map g (pyslice f l data)) (files_of cl data) f l ish =
+  Some (map (fun r => row_recon cl ish r (g r)) (pyslice f l data)).
+Proof.
+  induction cl as [|chns cl IH]; intros ish g; cbn [files_of map recon_shanks row_recon].
+  - f_equal.
+  - fold (files_of cl data). rewrite pyslice_map.
+    destruct ish as [|ish].
+    + rewrite assign_cols_map. apply (IH 1%nat (fun r => scatter chns (gather chns r) (g r))).
+    + rewrite map_map.
+      rewrite (map_ext (fun r => removelast (gather chns r)) (gather (removelast chns)))
+        by (intros r; apply removelast_map).
+      rewrite assign_cols_map.
+      apply (IH (S (S ish)) (fun r => scatter (removelast chns) (gather (removelast chns) r) (g r))).
+Qed.
+
+Lemma repeat_map {A B} (x : B) (l : list A) : repeat x (length l) = map (fun _ => x) l.
+Proof. induction l as [|a l IH]; cbn [length repeat map]; [reflexivity | now rewrite IH]. Qed.
+
+Lemma recon_window_rows nch data cl f l :
+  0 <= f <= l -> l <= Z.of_nat (length data) ->
+  recon_window nch (files_of cl data) (f, l) =
+  Some (map (fun r => row_recon cl 0 r (repeat 0 (Z.to_nat nch))) (pyslice f l data)).
+Proof.
+  intros Hfl Hl. unfold recon_window.
+  replace (Z.to_nat (l - f)) with (length (pyslice f l data)).
+  - rewrite repeat_map. apply recon_shanks_rows.
+  - rewrite pyslice_nat by lia. rewrite slice_nat_length by lia. lia.
+Qed.
+
+(* ------------------------------------------------------------------ *)
+(* every column is written back: shanks partition the AP columns        *)
+(* ------------------------------------------------------------------ *)
+Lemma insert_uniq_in x y : forall l, In y (insert_uniq x l) <-> y = x \/ In y l.
+Proof.
+  induction l as [|a l IH]; cbn [insert_uniq In]; [intuition|].
+  destruct (x <? a); [cbn [In]; intuition|].
+  destruct (Z.eqb_spec x a) as [->|Hne]; cbn [In]; [intuition|]. rewrite IH. intuition.
+Qed.
+
+Lemma shanks_of_in y labels : In y (shanks_of labels) <-> In y labels.
+Proof.
+  unfold shanks_of. induction labels as [|a l IH]; cbn [fold_right In]; [reflexivity|].
+  rewrite insert_uniq_in, IH. intuition.
+Qed.
+
+Lemma where_eq_in labels (c : nat) sh : (c < length labels)%nat -> nth c labels 0 = sh ->
+  In (Z.of_nat c) (where_eq labels sh).
+Proof.
+  intros Hc Hs. unfold where_eq. apply in_map_iff. exists (Z.of_nat c, sh). split; [reflexivity|].
+  apply filter_In. split; [|cbn [snd]; apply Z.eqb_refl].
+  assert (Hn : nth c (combine (zrange (length labels)) labels) (0, 0) = (Z.of_nat c, sh)).
+  { rewrite combine_nth by apply zrange_length. f_equal; [|exact Hs].
+    unfold zrange. rewrite (nth_indep _ 0 (Z.of_nat 0)) by (now rewrite map_length, seq_length).
+    rewrite map_nth, seq_nth by exact Hc. reflexivity. }
+  rewrite <- Hn. apply nth_In. rewrite combine_length, zrange_length. lia.
+Qed.
+
+Lemma where_eq_bound labels sh k : In k (where_eq labels sh) -> 0 <= k < Z.of_nat (length labels).
+Proof.
+  unfold where_eq. intros H. apply in_map_iff in H as [[a b] [<- H]]. apply filter_In in H as [H _].
+  apply in_combine_l in H. now apply in_zrange in H.
+Qed.
+
+Lemma list_max_bound l m : 0 <= m -> (forall k, In k l -> k <= m) -> list_max l <= m.
+Proof.
+  intros Hm. induction l as [|a l IH]; intros H; cbn [list_max fold_right]; [exact Hm|].
+  fold (list_max l). pose proof (H a (or_introl eq_refl)). 
+  assert (list_max l <= m) by (apply IH; intros k Hk; apply H; now right). lia.
+Qed.
+
+Lemma list_max_app_last l x : 0 <= x -> (forall k, In k l -> k <= x) -> list_max (l ++ [x]) = x.
+Proof.
+  intros Hx. induction l as [|a l IH]; intros H; cbn [app list_max fold_right]; [lia|].
+  fold (list_max (l ++ [x])). rewrite IH by (intros k Hk; apply H; now right).
+  pose proof (H a (or_introl eq_refl)). lia.
+Qed.
+
+Section Columns.
+Variables (labels : list Z).
+Hypothesis Hlab : labels <> [].
+Local Notation napch := (Z.of_nat (length labels)).
+Local Notation nc := (napch + 1).
+Definition chns_list := map (shank_chns labels nc 1) (shanks_of labels).
+
+Lemma sync_idx_1 : sync_idx nc 1 = [napch].
+Proof. unfold sync_idx. change (zrange (Z.to_nat 1)) with [0]. cbn [map]. f_equal. lia. Qed.
+
+Lemma row_final r : length r = Z.to_nat nc ->
+  row_recon chns_list 0 r (repeat 0 (Z.to_nat nc)) = r.
+Proof using Hlab.
+  intros Hr. apply (nth_ext _ _ 0 0).
+  { now rewrite row_recon_length, repeat_length. }
+  intros c Hc. rewrite row_recon_length, repeat_length in Hc.
+  apply row_recon_hit; [now rewrite repeat_length|].
+  destruct (Nat.eq_dec c (length labels)) as [E|E].
+  - (* the sync column, from the first shank *)
+    destruct (shanks_of labels) as [|sh0 rest] eqn:Es.
+    { destruct labels as [|a l]; [contradiction|].
+      assert (In a (shanks_of (a :: l))) by (apply shanks_of_in; now left). rewrite Es in H. contradiction. }
+    exists 0%nat, (shank_chns labels nc 1 sh0). split.
+    + unfold chns_list. now rewrite Es.
+    + cbn [Nat.add idx_of]. unfold shank_chns. rewrite sync_idx_1, map_app. apply in_or_app. right.
+      cbn [map In]. left. lia.
+  - (* an AP column, from the shank of its label *)
+    assert (Hcl : (c < length labels)%nat) by lia.
+    set (sh := nth c labels 0).
+    assert (Hin : In sh (shanks_of labels)) by (apply shanks_of_in, nth_In, Hcl).
+    apply In_nth_error in Hin as [j Hj].
+    exists j, (shank_chns labels nc 1 sh). split.
+    + unfold chns_list. now apply map_nth_error.
+    + assert (Hw : In c (map Z.to_nat (where_eq labels sh))).
+      { apply in_map_iff. exists (Z.of_nat c). split; [lia|]. now apply where_eq_in. }
+      unfold shank_chns. rewrite sync_idx_1. destruct (0 + j)%nat; cbn [idx_of].
+      * rewrite map_app. apply in_or_app. now left.
+      * now rewrite removelast_last.
+Qed.
+
+Lemma nch_first sh0 rest : shanks_of labels = sh0 :: rest ->
+  list_max (shank_chns labels nc 1 sh0) + 1 = nc.
+Proof.
+  intros _. unfold shank_chns. rewrite sync_idx_1. rewrite list_max_app_last; [reflexivity|lia|].
+  intros k Hk. apply where_eq_bound in Hk. lia.
+Qed.
+
+Section Recon.
+Variables (data : list row) (Wr : Z).
+Hypothesis HWr : 0 < Wr.
+Hypothesis Hdata : 1 <= Z.of_nat (length data).
+Hypothesis Hrect : forall r, In r data -> length r = Z.to_nat nc.
+Local Notation ns := (Z.of_nat (length data)).
+Local Notation K := (lastk ns Wr 0).
+Local Notation files := (files_of chns_list data).
+Set Default Proof Using "Hlab HWr Hdata Hrect".
+
+Lemma Hov0 : 0 <= 0 < Wr. Proof. lia. Qed.
+
+Lemma recon_window_id f l : 0 <= f <= l -> l <= ns ->
+  recon_window nc files (f, l) = Some (slice_nat (Z.to_nat f) (Z.to_nat l) data).
+Proof.
+  intros Hfl Hl. unfold chns_list. rewrite recon_window_rows by assumption.
+  rewrite <- pyslice_map. rewrite map_id_in by (intros r Hr; apply row_final, Hrect, Hr).
+  rewrite pyslice_nat by lia. f_equal. f_equal; lia.
+Qed.
+
+Lemma recon_all n : forall k, 0 <= k -> k + Z.of_nat n = K ->
+  concat_opt_rows (map (recon_window nc files) (wins_from ns Wr 0 k (S n))) =
+  Some (slice_nat (Z.to_nat (k * Wr)) (Z.to_nat ns) data).
+Proof.
+  pose proof (K_reaches ns Wr 0 Hdata Hov0) as HKr.
+  assert (Hs : stride Wr 0 = Wr) by (unfold stride; lia).
+  induction n as [|n IH]; intros k Hk HK; rewrite (wins_from_S ns Wr 0 Hdata Hov0); cbn [map concat_opt_rows].
+  - assert (k = K) by lia. subst k. cbn [wins_from seq map concat_opt_rows].
+    unfold win. rewrite ?Z.sub_0_r. rewrite Hs in *. replace (Z.min (K * Wr + Wr) ns) with ns by lia.
+    assert (K * Wr < ns).
+    { destruct (Z.eq_dec K 0) as [->|]; [lia|].
+      pose proof (last_len_gt_ov ns Wr 0 Hdata Hov0 ltac:(lia)). rewrite Hs in *. lia. }
+    rewrite recon_window_id by nia. now rewrite app_nil_r.
+  - pose proof (before_K_short ns Wr 0 Hdata Hov0 k ltac:(lia)) as Hsh. rewrite Hs in Hsh.
+    unfold win at 1. rewrite ?Z.sub_0_r. replace (Z.min (k * Wr + Wr) ns) with (k * Wr + Wr) by lia.
+    rewrite recon_window_id by nia. rewrite (IH (k + 1)) by lia. f_equal.
+    replace ((k + 1) * Wr) with (k * Wr + Wr) by ring.
+    apply slice_nat_app. nia.
+Qed.
+
+Lemma reconstruct_files : reconstruct_w Wr files = Some data.
+Proof.
+  unfold reconstruct_w, chns_list.
+  destruct (shanks_of labels) as [|sh0 rest] eqn:Es.
+  { destruct labels as [|a l]; [contradiction|].
+    assert (In a (shanks_of (a :: l))) by (apply shanks_of_in; now left). rewrite Es in H. contradiction. }
+  cbn [map files_of]. rewrite (nch_first sh0 rest Es). rewrite map_length.
+  rewrite (firstlast_closed ns Wr 0 Hdata Hov0).
+  pose proof (K_nonneg ns Wr 0 Hdata Hov0).
+  replace (Z.to_nat (K + 1)) with (S (Z.to_nat K)) by lia.
+  pose proof (recon_all (Z.to_nat K) 0 ltac:(lia) ltac:(lia)) as HR.
+  unfold chns_list in HR. rewrite Es in HR. cbn [map files_of] in HR. rewrite HR.
+  change (Z.to_nat (0 * Wr)) with 0%nat. rewrite slice_nat_0, Nat2Z.id. now rewrite firstn_all.
+Qed.
+End Recon.
+End Columns.
+Unset Default Proof Using.
+
+(* ------------------------------------------------------------------ *)
+(* explicit tiling statement for the kept ranges                        *)
+(* ------------------------------------------------------------------ *)
+Section Tiles.
+Variables ns W : Z.
+Hypothesis Hns : 1 <= ns.
+Hypothesis HW : 576 < W.
+Local Notation K := (lastk ns W 576).
+
+Lemma kept_list_closed n : forall k, 0 <= k -> k + Z.of_nat n <= K + 1 ->
+  kept_list ns W (wins_from ns W 576 k n) k =
+  map (fun i => (vfirst W 576 (k + Z.of_nat i), vlast ns W 576 (k + Z.of_nat i))) (seq 0 n).
+Proof using Hns HW.
+  induction n as [|n IH]; intros k Hk Hn; [reflexivity|].
+  rewrite (wins_from_S ns W 576 Hns (Hov ns W Hns HW)). cbn [kept_list seq map].
+  rewrite (kept_closed ns W Hns HW k) by lia. rewrite Z.add_0_r. f_equal.
+  rewrite (IH (k + 1)) by lia. rewrite <- seq_shift, map_map. apply map_ext. intros i.
+  replace (k + 1 + Z.of_nat i) with (k + Z.of_nat (S i)) by lia. reflexivity.
+Qed.
+
+Lemma pub_tiles : exists wins, firstlast ns W OVERLAP = Some wins /\
+  let ks := kept_list ns W wins 0 in
+  length ks = length wins /\
+  fst (nth 0 ks (0, 0)) = 0 /\ snd (nth (length ks - 1) ks (0, 0)) = ns /\
+  (forall i, (S i < length ks)%nat -> snd (nth i ks (0, 0)) = fst (nth (S i) ks (0, 0))) /\
+  (forall i, (i < length ks)%nat ->
+     0 <= fst (nth i ks (0, 0)) < snd (nth i ks (0, 0)) /\ snd (nth i ks (0, 0)) <= ns).
+Proof using Hns HW.
+  pose proof (Hov ns W Hns HW) as Hov'. pose proof (K_nonneg ns W 576 Hns Hov') as HK.
+  exists (wins_from ns W 576 0 (Z.to_nat (K + 1))). split.
+  { exact (firstlast_closed ns W 576 Hns Hov'). }
+  cbv zeta. rewrite kept_list_closed by lia.
+  set (F := fun i : nat => (vfirst W 576 (0 + Z.of_nat i), vlast ns W 576 (0 + Z.of_nat i))).
+  assert (Hnth : forall i, (i < Z.to_nat (K + 1))%nat ->
+            nth i (map F (seq 0 (Z.to_nat (K + 1)))) (0, 0) = F i).
+  { intros i Hi. rewrite (nth_indep _ (0, 0) (F 0%nat)) by (now rewrite map_length, seq_length).
+    rewrite map_nth, seq_nth by exact Hi. reflexivity. }
+  rewrite map_length, seq_length. unfold wins_from. rewrite map_length, seq_length.
+  split; [reflexivity|]. split; [|split; [|split]].
+  - rewrite Hnth by lia. reflexivity.
+  - rewrite Hnth by lia. unfold F; cbn [snd].
+    replace (0 + Z.of_nat (Z.to_nat (K + 1) - 1)) with K by lia.
+    exact (kept_last ns W Hns HW).
+  - intros i Hi. rewrite !Hnth by lia. unfold F; cbn [fst snd].
+    rewrite (kept_adjacent ns W Hns HW) by lia. f_equal. lia.
+  - intros i Hi. rewrite Hnth by lia. unfold F; cbn [fst snd].
+    pose proof (kept_nonempty ns W Hns HW (0 + Z.of_nat i) ltac:(lia)).
+    pose proof (kept_bounds ns W Hns HW (0 + Z.of_nat i) ltac:(lia)). lia.
+Qed.
+End Tiles.
+
+(* ------------------------------------------------------------------ *)
+(* split, then reconstruct                                             *)
+(* ------------------------------------------------------------------ *)
+Definition files_of_split (split : list (Z * list Z * list row)) : list (list Z * list row) :=
+  map (fun x => (snd (fst x), snd x)) split.
+
+Lemma files_of_split_spec labels data :
+  files_of_split (split_spec labels (Z.of_nat (length labels) + 1) 1 data) =
+  files_of (chns_list labels) data.
+Proof.
+  unfold files_of_split, split_spec, files_of, chns_list. rewrite !map_map. reflexivity.
+Qed.
+
+Lemma pub_roundtrip cap csy labels ns W Wr data :
+  labels <> [] -> 1 <= ns -> 576 < W -> 0 < Wr -> ns = Z.of_nat (length data) ->
+  (forall r, In r data -> length r = S (length labels)) ->
+  (forall r x, In r data -> In x r -> cap x = x /\ csy x = x) ->
+  exists split,
+    process_np24 cap csy (Z.of_nat (length labels)) 1 (Z.of_nat (length labels) + 1) labels ns W data
+      = Some split /\
+    split = split_spec labels (Z.of_nat (length labels) + 1) 1 data /\
+    reconstruct_w Wr (files_of_split split) = Some data.
+Proof.
+  intros Hlab Hns HW HWr Hlen Hrect Hex.
+  exists (split_spec labels (Z.of_nat (length labels) + 1) 1 data). split; [|split; [reflexivity|]].
+  - now apply pub_split_lossless.
+  - rewrite files_of_split_spec. apply reconstruct_files; try assumption.
+    + subst ns. exact Hns.
+    + intros r Hr. rewrite (Hrect r Hr). lia.
+Qed.
